@@ -30,7 +30,7 @@ Req(m, r) ==
         dt == IF m.any THEN Sub(r.tn, m.tp) ELSE <<0>>
         decay == MulSmall(dt, m.R)                       \* R * dt in 10^-9 frames (R < 2^15)
         f1 == Add(IF Le(decay, m.f) THEN Sub(m.f, decay) ELSE <<0>>, E9)
-        pos1 == IF r.op = "inc" THEN m.pos + 1 ELSE m.pos
+        pos1 == IF r.op = "inc" THEN m.pos + 1 ELSE IF r.op = "set_position" THEN r.n ELSE m.pos
         due == ~m.any \/ Le(E9, decay)                   \* first request, or >= 1/R since the last painted frame
     IN [m |-> IF painted THEN [m EXCEPT !.f = f1, !.tp = r.tn, !.any = TRUE, !.pos = pos1] ELSE [m EXCEPT !.pos = pos1],
         painted |-> painted, due |-> due, full |-> painted /\ Le(MulSmall(E9, m.B), f1),
@@ -47,7 +47,7 @@ Next ==
     /\ \E r \in {Rec[i]} :
        IF r.op = "init" THEN
             /\ M' = M0(r.cfg.x) /\ dead' = FALSE /\ bad' = bad /\ st' = [st EXCEPT !.recs = @ + 1, !.hists = @ + 1]
-       ELSE IF dead \/ r.op \notin {"tick", "inc", "set_message"} THEN UNCHANGED <<M, dead, bad>> /\ st' = [st EXCEPT !.recs = @ + 1]
+       ELSE IF dead \/ r.op \notin {"tick", "inc", "set_message", "set_position"} THEN UNCHANGED <<M, dead, bad>> /\ st' = [st EXCEPT !.recs = @ + 1]
        ELSE \E x \in {Req(M, r)} :
             /\ M' = x.m
             /\ dead' = (x.rule # "")
